@@ -141,7 +141,19 @@ func VerifC07Set() {
 	if k == optMultiset {
 		mode = modeMultiset
 	}
-	a, b := vNumArray(n), vNumArray(n)
+	var a, b jsonArray
+	if vParam("NESTED", 0) == 1 {
+		// members are numbers or small arrays (read as sets / bags themselves)
+		a, b = make(jsonArray, vChoice(n+1)), make(jsonArray, vChoice(n+1))
+		for i := range a {
+			a[i] = vNumOrArr()
+		}
+		for i := range b {
+			b[i] = vNumOrArr()
+		}
+	} else {
+		a, b = vNumArray(n), vNumArray(n)
+	}
 	if vKnown("hash.alias") {
 		vAssumeNoHashAlias(a, b)
 	}
@@ -172,6 +184,13 @@ func VerifC07Set() {
 	vAssert((len(d) == 0) == refEq(a, b, mode, 0), "hunks exist for equal documents / none for different ones")
 	vLeaveOneOut(a, b, d, opts)
 	vCover("c07.set." + optName(k))
+}
+
+func vNumOrArr() JsonNode {
+	if vChoice(2) == 0 {
+		return vNum()
+	}
+	return vNumArray(2)
 }
 
 // VerifC07Merge: merge hunks carry b's value (void for a deleted key) and differ from a's.
